@@ -161,6 +161,10 @@ def isotopicMasses : List (Key × Rat) := (isotopicWrites Gen.nuclides).reverse
 /-- `AVERAGE_ATOMIC_MASSES` -/
 def averageMasses : List (Key × Rat) := (averageWrites Gen.nuclides).reverse
 
+-- the two tables are large closed terms: keep the elaborator's unifier from unfolding them (the kernel and the
+-- compiler are unaffected)
+attribute [irreducible] isotopicMasses averageMasses
+
 def isIsotopeKey (e : Elem) : Bool := isDigitCode (keyHead e) || e == kD || e == kT
 
 /-- the mass `chem_mass` uses for one dict key; `none` = "Unknown element" -/
